@@ -94,6 +94,7 @@ pub enum LogItem {
     Cond { id: i64, vin: ActionValue, res: ActionState, seen: Vec<(usize, ActionState)> },
     Mod { id: i64, vin: ActionValue, vout: ActionValue, seen: Vec<(usize, ActionState)> },
     Mark(&'static str),
+    Built(usize, i64),
 }
 
 #[derive(Resource, Clone, Default)]
@@ -362,6 +363,7 @@ pub fn show_item(it: &LogItem, ent: &dyn Fn(Entity) -> i64) -> String {
             format!("(LMod {} {} {} {})", id, show_value(*vin), show_value(*vout), show_seen(seen))
         }
         LogItem::Mark(m) => format!("(LMark {m})"),
+        LogItem::Built(c, e) => format!("(LBuilt {c} {e})"),
     }
 }
 fn show_seen(seen: &[(usize, ActionState)]) -> String {
